@@ -57,6 +57,10 @@ class CaseRef:
             self.ref = CircularRef(o)
             self.psi_scale = abs(float(self.ref.psi_r(o.get("r_outer", 0.3))))
             self.inp = None
+        elif fam == "T":
+            self.ref = CoilRef(desc["eq"]["equilibOptions"])
+            self.psi_scale = abs(float(o.get("psi_core", 1e-3)))
+            self.inp = None
         else:
             raise ValueError(fam)
 
@@ -64,6 +68,9 @@ class CaseRef:
     def fpol(self, psi):
         if self.desc["family"] == "C":
             return self.ref.fpol(psi)
+        if self.desc["family"] == "T":
+            # TORPEXMagneticField: fpol = Bt_axis / Rcentre (constant); Rcentre = 1 m
+            return self.ref.Bt_axis + 0.0 * numpy.asarray(psi, dtype=float)
         if len(self.fpol1D) == 0:
             return 0.0 * numpy.asarray(psi, dtype=float)
         return self._profile(psi, self.fpol1D)
@@ -153,6 +160,51 @@ class CircularRef:
 
     def fpol(self, psi):
         return self.B0 * self.R0 + 0.0 * numpy.asarray(psi, dtype=float)
+
+
+class CoilRef:
+    """psi of a set of circular coils (TORPEX family): psi = -R A_phi with the textbook vector
+    potential of a current loop in complete elliptic integrals; derivatives by 4th-order central
+    differences (the harness does not use sympy)."""
+
+    def __init__(self, eqopts):
+        self.coils = [(float(c["R"]), float(c["Z"]), float(c["I"])) for c in eqopts["Coils"]]
+        self.Bt_axis = float(eqopts.get("Bt_axis", 0.0))
+        self.h = 1e-4
+
+    def psi(self, R, Z):
+        from scipy.special import ellipe, ellipk
+
+        R = numpy.asarray(R, dtype=float)
+        Z = numpy.asarray(Z, dtype=float)
+        mu0 = 4.0e-7 * numpy.pi
+        A = 0.0 * R
+        for Rc, Zc, I in self.coils:
+            den = (R + Rc) ** 2 + (Z - Zc) ** 2
+            k2 = 4.0 * Rc * R / den
+            A = A + I * Rc / numpy.sqrt(den) / k2 * ((2.0 - k2) * ellipk(k2) - 2.0 * ellipe(k2))
+        return -R * A * mu0 / numpy.pi
+
+    def _d(self, f, R, Z, axis):
+        h = self.h
+        if axis == 0:
+            return (-f(R + 2 * h, Z) + 8 * f(R + h, Z) - 8 * f(R - h, Z) + f(R - 2 * h, Z)) / (12 * h)
+        return (-f(R, Z + 2 * h) + 8 * f(R, Z + h) - 8 * f(R, Z - h) + f(R, Z - 2 * h)) / (12 * h)
+
+    def dR(self, R, Z):
+        return self._d(self.psi, R, Z, 0)
+
+    def dZ(self, R, Z):
+        return self._d(self.psi, R, Z, 1)
+
+    def dRR(self, R, Z):
+        return self._d(self.dR, R, Z, 0)
+
+    def dZZ(self, R, Z):
+        return self._d(self.dZ, R, Z, 1)
+
+    def dRZ(self, R, Z):
+        return self._d(self.dR, R, Z, 1)
 
 
 def refine_tolerance(case):
